@@ -59,7 +59,7 @@ Ltac dq := repeat match goal with
   | q : quat |- _ => destruct q
   | v : vec |- _ => destruct v
   | m : mat |- _ => destruct m end.
-Ltac unf := unfold qeq, veq, meq, qmul, qconj, qneg, qscale, qinv, n2, qone, qzero,
+Ltac unf := unfold vn2 in *; unfold qeq, veq, meq, qmul, qconj, qneg, qscale, qinv, n2, qone, qzero,
   vzero, vadd, vsub, vneg, vscale, vdot, vn2, mid, mtrans, mmul, mvmul, mdet, rot, rot_unit in *; cbn [qw qx qy qz vx vy vz m00 m01 m02 m10 m11 m12 m20 m21 m22] in *.
 (* split a conjunction of Q-equations and close each with the given tactic *)
 Ltac each tac := repeat split; tac.
@@ -116,8 +116,9 @@ Ltac proper_tac :=
 #[export] Instance rot_unit_proper : Proper (qeq ==> meq) rot_unit. Proof. proper_tac. Qed.
 
 (* ------------------------------------------------------------------ algebra: rings and fields *)
-Ltac qring := intros; dq; unf; repeat split; ring.
-Ltac qfield := intros; dq; unf; repeat split; field; repeat split; assumption.
+Ltac conj := repeat match goal with |- _ /\ _ => split end.
+Ltac qring := intros; dq; unf; conj; ring.
+Ltac qfield := intros; dq; unf; conj; field; conj; assumption.
 
 (* --- vectors *)
 Lemma vadd_assoc a b c : vadd (vadd a b) c =v= vadd a (vadd b c). Proof. qring. Qed.
@@ -165,7 +166,7 @@ Lemma qscale_mul_l k a b : qmul (qscale k a) b =q= qscale k (qmul a b). Proof. q
 Lemma qscale_mul_r k a b : qmul a (qscale k b) =q= qscale k (qmul a b). Proof. qring. Qed.
 Lemma qneg_scale a : qneg a =q= qscale (-1 # 1) a. Proof. qring. Qed.
 Lemma qinv_conj a : qinv a =q= qscale (/ n2 a) (qconj a).
-Proof. intros; dq; unf; repeat split; unfold Qdiv; ring. Qed.
+Proof. intros; dq; unf; conj; unfold Qdiv; ring. Qed.
 
 Lemma n2_mul a b : n2 (qmul a b) == n2 a * n2 b. Proof. qring. Qed.
 Lemma n2_conj a : n2 (qconj a) == n2 a. Proof. qring. Qed.
@@ -213,11 +214,65 @@ Lemma qmul_inv_l a : ~ n2 a == 0 -> qmul (qinv a) a =q= qone. Proof. qfield. Qed
 Lemma qinv_involutive a : ~ n2 a == 0 -> qinv (qinv a) =q= a.
 Proof.
   intros Ha. pose proof (n2_inv_nonzero a Ha) as Hi. revert Ha Hi. dq; unf. intros Ha Hi.
-  repeat split; field; repeat split; try assumption.
+  conj; field; conj; assumption.
 Qed.
 Lemma qinv_mul a b : ~ n2 a == 0 -> ~ n2 b == 0 -> qinv (qmul a b) =q= qmul (qinv b) (qinv a).
 Proof.
   intros Ha Hb. pose proof (n2_mul_nonzero a b Ha Hb) as Hab. revert Ha Hb Hab. dq; unf. intros Ha Hb Hab.
-  repeat split; field; repeat split; assumption.
+  conj; field; conj; assumption.
 Qed.
 Lemma qinv_one : qinv qone =q= qone. Proof. unf. repeat split; reflexivity. Qed.
+
+(* ------------------------------------------------------------------ rotations *)
+Lemma rot_one : rot qone =m= mid.
+Proof. unf. conj; reflexivity. Qed.
+
+(* the homomorphism law: the matrix of a product is the product of the matrices *)
+Lemma rot_mul a b : ~ n2 a == 0 -> ~ n2 b == 0 -> rot (qmul a b) =m= mmul (rot a) (rot b).
+Proof.
+  intros Ha Hb. pose proof (n2_mul_nonzero a b Ha Hb) as Hab. revert Ha Hb Hab. dq; unf. intros Ha Hb Hab.
+  conj; field; conj; assumption.
+Qed.
+
+Lemma rot_orth_r q : ~ n2 q == 0 -> mmul (rot q) (mtrans (rot q)) =m= mid. Proof. qfield. Qed.
+Lemma rot_orth_l q : ~ n2 q == 0 -> mmul (mtrans (rot q)) (rot q) =m= mid. Proof. qfield. Qed.
+Lemma rot_det q : ~ n2 q == 0 -> mdet (rot q) == 1. Proof. qfield. Qed.
+
+Lemma rot_conj q : rot (qconj q) =m= mtrans (rot q).
+Proof.
+  destruct (Qeq_dec (n2 q) 0) as [Z|NZ].
+  - apply n2_zero_iff in Z. rewrite Z. unf. conj; reflexivity.
+  - revert NZ. qfield.
+Qed.
+Lemma rot_neg q : rot (qneg q) =m= rot q.
+Proof.
+  destruct (Qeq_dec (n2 q) 0) as [Z|NZ].
+  - apply n2_zero_iff in Z. rewrite Z. unf. conj; reflexivity.
+  - revert NZ. qfield.
+Qed.
+(* scale invariance: a non-unit quaternion denotes the rotation of its normalisation *)
+Lemma rot_scale k q : ~ k == 0 -> rot (qscale k q) =m= rot q.
+Proof.
+  intros Hk. destruct (Qeq_dec (n2 q) 0) as [Z|NZ].
+  - apply n2_zero_iff in Z. rewrite Z. unf. conj; field; assumption.
+  - pose proof (n2_scale_nonzero k q Hk NZ) as Hs. revert NZ Hs. dq; unf. intros NZ Hs.
+    conj; field; conj; assumption.
+Qed.
+Lemma rot_inv q : ~ n2 q == 0 -> rot (qinv q) =m= mtrans (rot q).
+Proof.
+  intros NZ. rewrite qinv_conj, rot_scale, rot_conj; [reflexivity|].
+  intros H. apply NZ. rewrite <- (Qinv_involutive (n2 q)), H. reflexivity.
+Qed.
+
+Lemma rot_isometry q v : ~ n2 q == 0 -> vn2 (mvmul (rot q) v) == vn2 v. Proof. qfield. Qed.
+Lemma rot_dot q u v : ~ n2 q == 0 -> vdot (mvmul (rot q) u) (mvmul (rot q) v) == vdot u v. Proof. qfield. Qed.
+Lemma rot_inv_cancel_l q v : ~ n2 q == 0 -> mvmul (rot (qinv q)) (mvmul (rot q) v) =v= v.
+Proof. intros NZ. rewrite rot_inv, <- mvmul_mmul, rot_orth_l, mvmul_id by assumption. reflexivity. Qed.
+Lemma rot_inv_cancel_r q v : ~ n2 q == 0 -> mvmul (rot q) (mvmul (rot (qinv q)) v) =v= v.
+Proof. intros NZ. rewrite rot_inv, <- mvmul_mmul, rot_orth_r, mvmul_id by assumption. reflexivity. Qed.
+
+(* ------------------------------------------------------------------ the two branches of the code *)
+Lemma rot_unit_exact q : n2 q == 1 -> rot_unit q =m= rot q.
+Proof.
+  intros H. unfold rot, rot_unit. cbv zeta. rewrite H. dq; unf. conj; field.
+Qed.
